@@ -99,7 +99,12 @@ impl LocalSpan {
         if let Some(LocalSpanInner { stack, span_handle }) = &self.inner {
             // Run the user closure before borrowing the span stack: it may call back into
             // fastrace (a traced function, a fastrace-aware logger).
-            let properties = properties();
+            // The same goes for the iterator the closure returns and for the conversions of its
+            // items, so they are evaluated here as well.
+            let properties: Vec<(Cow<'static, str>, Cow<'static, str>)> = properties()
+                .into_iter()
+                .map(|(k, v)| (k.into(), v.into()))
+                .collect();
             let span_stack = &mut *stack.borrow_mut();
             span_stack.with_properties(span_handle, || properties);
         }
@@ -158,7 +163,10 @@ impl LocalSpan {
                     if !s.borrow_mut().is_recording() {
                         return Some(());
                     }
-                    let properties = properties();
+                    let properties: Vec<(Cow<'static, str>, Cow<'static, str>)> = properties()
+                        .into_iter()
+                        .map(|(k, v)| (k.into(), v.into()))
+                        .collect();
                     let span_stack = &mut s.borrow_mut();
                     span_stack.add_properties(|| properties);
                     Some(())
